@@ -125,6 +125,13 @@ op("drop_S2", "drop schema s2", lambda m: "S2" in m.cat["DB1"], lambda m: m.cat[
 op("create_DB2", "create database db2", lambda m: "DB2" not in m.cat, lambda m: m.cat.__setitem__("DB2", {}))
 op("create_DB2_S1", "create schema db2.s1", lambda m: "DB2" in m.cat and "S1" not in m.cat["DB2"], lambda m: m.cat["DB2"].__setitem__("S1", {}))
 op("create_DB2_T", f"create table db2.s1.t ({ddl_cols(['C', 'D'])}) comment = 'db2c'", lambda m: _free(m, "T", ("DB2", "S1")), lambda m: _create(m, "T", [col("C"), col("D")], "db2c", ("DB2", "S1")))
+# statements that must FAIL and change nothing (a rejected CREATE must not touch the metadata of the existing table)
+FAILING = {"dup_create_T", "dup_create_T_ctas", "replace_U_from_missing", "dup_create_V", "add_existing_col"}
+op("dup_create_T", "create table t (other int, z varchar(2)) comment = 'dup'", lambda m: _has(m, "T"), lambda m: None)
+op("dup_create_T_ctas", "create table t as select 1 as one", lambda m: _has(m, "T"), lambda m: None)
+op("replace_U_from_missing", "create or replace table u as select * from table_that_is_missing", lambda m: _has(m, "U"), lambda m: None)
+op("dup_create_V", "create view v as select 1 as one", lambda m: _has(m, "V", "VIEW"), lambda m: None)
+op("add_existing_col", "alter table t add column a varchar(9)", lambda m: _has(m, "T") and "A" in _colnames(m, "T"), lambda m: None)
 op("nop_set", "set some_var = 1", lambda m: True, lambda m: None)
 op("nop_tag", "alter table t set tag k = 'v'", lambda m: _has(m, "T"), lambda m: None)
 op("create_PK", "create table p (id int primary key, n varchar(4))", lambda m: _free(m, "P"), lambda m: _create(m, "P", [dict(col("ID", "A"), null=False), dict(col("N", "H"), len=4, desc="VARCHAR(4)")]))
@@ -132,6 +139,7 @@ op("create_PK", "create table p (id int primary key, n varchar(4))", lambda m: _
 QUICK_OPS = [
     "create_T", "create_T_comment", "replace_T", "ctas_U_plain", "ctas_U_cast", "clone_U", "view_V", "add_H", "drop_B", "readd_B",
     "rename_col_B", "rename_T_U", "set_comment", "comment_on", "drop_T", "drop_U", "create_S2", "create_S2_T", "create_DB2", "nop_tag",
+    "dup_create_T", "replace_U_from_missing",
 ]
 # explicit deeper histories (name collisions across time, schemas and databases) explored in both tiers
 COLLISIONS = [
@@ -152,6 +160,10 @@ COLLISIONS = [
     ["create_T", "view_V", "replace_view_V", "drop_V", "drop_T"],
     ["create_PK", "create_T_comment", "set_comment"],
     ["create_T_comment", "ctas_U_plain", "drop_U", "ctas_U_cast"],
+    ["create_T_comment", "dup_create_T", "dup_create_T_ctas", "add_existing_col"],
+    ["create_T_comment", "clone_U", "replace_U_from_missing"],
+    ["create_T", "view_V", "dup_create_V"],
+    ["create_S2", "create_S2_T", "create_T_comment"],  # same table name with different columns in two schemas
 ]
 
 
@@ -301,6 +313,27 @@ def sweep(conn, m: Model, acc, rp, last):
         except Exception as e:  # noqa: BLE001
             bad("C09.description", f"kind={o['kind']},raises", {"object": fq, "got": exc_info(e)})
         n += 1
+    # -- the same unqualified statement text in every schema that has a table of that name, on ONE connection and ONE
+    #    cursor (state keyed by statement text, e.g. a description cache, must not leak between contexts)
+    same_name = [(d, s) for d, s, n_, o in user_tables if n_ == "T" and o["kind"] == "TABLE"]
+    if len(same_name) > 1:
+        ucur = conn.cursor()
+        for d, s in sorted(same_name) + sorted(same_name)[:1]:
+            o = m.cat[d][s]["T"]
+            try:
+                ucur.execute(f"use schema {d}.{s}")
+                ucur.execute("select * from t")
+                desc = ucur.description
+                check_columns(acc, rp, last, "description_unqualified_after_use_schema", f"{d}.{s}.T", o, [
+                    {"name": c.name, "code": c.type_code, "prec": c.precision if c.type_code == 0 else None, "scale": c.scale if c.type_code == 0 else None} for c in desc
+                ])
+                r = q(dcur, "describe table t")
+                n += 2
+                if not isexc(r):
+                    check_columns(acc, rp, last, "describe_unqualified_after_use_schema", f"{d}.{s}.T", o, [{"name": x["name"], "desc": x["type"], "null": x["null?"] == "Y"} for x in r])
+            except Exception as e:  # noqa: BLE001
+                bad("C09.description", "unqualified_after_use_schema,raises", {"schema": f"{d}.{s}", "got": exc_info(e)})
+        cur.execute("use schema db1.s1")
     # -- SHOW TABLES / OBJECTS / SCHEMAS in every scope
     shows = [
         ("show tables", "TABLE", None, None),
@@ -422,6 +455,12 @@ def expand(item, acc: core.Acc, tier):
     acc.count("traces")
     acc.obs((hist, oid, got, t))
     acc.outcome((oid, got[0], got[1:3] if got[0] == "err" else None))
+    if oid in FAILING:
+        if got[0] == "ok":
+            acc.violation("C09.must_fail", f"op={oid}", {"sql": sql}, {"history": hist, "op": oid})
+            return None
+        # the state after a rejected statement is swept like any other (the model did not change)
+        return (t, m.key() + "|after_rejected:" + oid)
     if got[0] != "ok":
         acc.violation("C09.statement_works", f"op={oid},exc={got[1].split('.')[-1]}", {"sql": sql, "got": got}, {"history": hist, "op": oid})
         return None
